@@ -166,6 +166,18 @@ def op_dense(rec, in_shape):
         if all(o == oshapes[0] for o in oshapes):
             return M, (len(axes),) + tuple(oshapes[0])
         return M, tuple(oshapes)
+    if t == "sumconv":
+        # A = Sum(axis 0) o CircularConvolve(h, ndims=1) on inputs of shape (K, n): block row [circ(h_1) ... circ(h_K)]
+        h = np.asarray(rec["h"], dtype=np.float64)
+        K, nn = tuple(in_shape)
+        M = np.zeros((nn, K * nn))
+        for k in range(K):
+            hk = np.zeros(nn)
+            hk[: h.shape[1]] = h[k]
+            for i in range(nn):
+                for j in range(nn):
+                    M[i, k * nn + j] = hk[(i - j) % nn]
+        return M, (nn,)
     if t == "vstack":
         Ms, shs = [], []
         for r in rec["ops"]:
@@ -203,6 +215,9 @@ def op_scico(rec, in_shape, cplx):
     if t == "fd":
         return linop.FiniteDifference(sh, input_dtype=dt, axes=rec.get("axes"), append=rec.get("append"),
                                       circular=rec.get("circular", False))
+    if t == "sumconv":
+        h = snp.array(np.asarray(rec["h"], dtype=np.float64).astype(dt))
+        return linop.Sum(input_shape=sh, axis=0, input_dtype=dt) @ linop.CircularConvolve(h=h, input_shape=sh, input_dtype=dt, ndims=1)
     if t == "vstack":
         return linop.VerticalStack(tuple(op_scico(r, in_shape, cplx) for r in rec["ops"]))
     raise Infra(f"unknown operator recipe {t}")
@@ -452,12 +467,43 @@ class Built:
             sub = CircularConvolveSolver(ndims=len(xs))
         elif kind == "generic":
             sub = GenericSubproblemSolver(minimize_kwargs={"options": {"maxiter": 500, "gtol": 1e-12}})
+        elif kind == "fblock":
+            from scico.optimize.admm import FBlockCircularConvolveSolver
+
+            sub = FBlockCircularConvolveSolver(ndims=1)
+        elif kind == "g0block":
+            from scico.optimize.admm import G0BlockCircularConvolveSolver
+
+            sub = G0BlockCircularConvolveSolver(ndims=1)
         else:
             raise Infra("solver kind")
+        if r.get("reuse") is not None:
+            # helper-reuse history: the SAME sub-problem solver object is first attached to another ADMM problem (same
+            # operators, different data / scale of the loss) and used for one x-update, then attached to this one
+            import copy
+
+            rr = copy.deepcopy(r)
+            ru = r["reuse"]
+            if kind == "g0block":
+                rr["g"][0]["y"] = ru["y"]
+                rr["g"][0]["s"] = ru["s"]
+            elif rr.get("f") is not None:
+                rr["f"]["y"] = ru["y"]
+                rr["f"]["s"] = ru["s"]
+            g0 = [fn_scico(g, o, cx) for g, o in zip(rr["g"], zsh)]
+            f0 = None if rr.get("f") is None else fn_scico(rr["f"], xs, cx)
+            first = ADMM(f=f0, g_list=g0, C_list=Cs, rho_list=list(r["rho"]), alpha=r["alpha"], x0=self._start("x0", xs),
+                         subproblem_solver=sub, maxiter=1)
+            first.step()
+            self.first = first
         self.solver = ADMM(f=f, g_list=gs, C_list=Cs, rho_list=list(r["rho"]), alpha=r["alpha"],
                            x0=self._start("x0", xs), subproblem_solver=sub, maxiter=1)
         n = size_of(xs) * (2 if cx else 1)
         self.p = {"f": fm, "g": gm, "C": Cm, "rho": fs2b(r["rho"]), "alpha": f2b(r["alpha"]), "n": n}
+        if r.get("xweights") is not None:
+            # x-step of G0BlockCircularConvolveSolver as its docstring states it: weight rho_1 * omega (= 2 omega * rho_1/2) on
+            # the first term (known finding C10 g0-scale: this is the standard ADMM x-step only for omega = 1/2)
+            self.p["xw"] = fs2b(r["xweights"])
 
     # ----- LinearizedADMM
     def _build_ladmm(self):
@@ -556,6 +602,17 @@ class Built:
         cls = cls or PGM
         r, cx, xs = self.recipe, self.cplx, self.xshape
         self.policy = make_policy(r["pol"])
+        if r.get("reuse") is not None and self.policy is not None:
+            # helper-reuse history: the step-size object is first attached to another solver (different data, L0) and used
+            import copy
+
+            rr = copy.deepcopy(r)
+            rr["f"]["y"] = r["reuse"]["y"]
+            first = cls(f=fn_scico(rr["f"], xs, cx), g=fn_scico(r["g"], xs, cx), L0=r["reuse"]["L0"],
+                        x0=unflat(r["x0"], xs, cx), step_size=self.policy, maxiter=1)
+            first.step()
+            first.step()
+            self.first = first
         self.solver = cls(f=fn_scico(r["f"], xs, cx), g=fn_scico(r["g"], xs, cx), L0=r["L0"],
                           x0=unflat(r["x0"], xs, cx), step_size=self.policy, maxiter=1)
         if self.policy is None:
@@ -863,6 +920,8 @@ def _gen_admm(rng, cplx, edge):
         solver = "linear"
     if solver == "generic":
         return _gen_admm_generic(rng, xs, cplx, edge)
+    if rng.integers(0, 8) == 0:
+        return _gen_admm_block(rng, _pick(rng, ["fblock", "g0block"]), edge)
     Cs = []
     # MatrixSubproblemSolver: all-MatrixOperator, all-diagonal (Identity / ScaledIdentity / Diagonal) and - legal since
     # 35adc7f - MIXED diagonal / matrix constraint lists (f=None and a Diagonal f.A work since de41369)
@@ -922,6 +981,34 @@ def _gen_admm(rng, cplx, edge):
     r = {"alg": "admm", "cplx": cplx, "xshape": xs, "C": Cs, "g": gs, "f": f,
          "rho": [_pick(rng, [0.5, 1.0, 2.0, 0.25, 4.0]) for _ in range(N)], "alpha": alpha, "solver": solver,
          "x0": _maybe(rng, rand_value(rng, xs, cplx), 0.2)}
+    if f is not None and rng.integers(0, 3) == 0:
+        # helper-reuse history: the sub-problem solver object has served another problem (other data / scale) before
+        r["reuse"] = {"y": rand_value(rng, tup(f["yshape"]), cplx), "s": _pick(rng, [0.5, 1.0, 2.0, 0.25])}
+    return r
+
+
+def _gen_admm_block(rng, kind, edge):
+    """ADMM with the DFT-domain block solvers: FBlockCircularConvolveSolver (f = omega ||A x - y||^2, A = Sum o CircularConvolve)
+    and G0BlockCircularConvolveSolver (f = 0, g_1 = omega ||. - y||^2, C_1 = A); x has shape (K, n), the other C_i are identities"""
+    K, n = int(rng.integers(2, 4)), int(rng.integers(3, 6))
+    xs = [K, n]
+    A = {"t": "sumconv", "h": dy(rng, (K, int(rng.integers(2, 4))), 2, 1.5).tolist()}
+    om = _pick(rng, [0.5, 0.5, 1.0, 2.0])
+    rho1 = _pick(rng, [0.4, 1.0, 2.5, 0.5])
+    loss = {"k": "sqloss", "s": om, "A": None, "yshape": [n], "y": rand_value(rng, [n], False)}
+    Nid = int(rng.integers(1, 3))
+    ids = [_pick(rng, [{"t": "id"}, {"t": "id"}, {"t": "sid", "s": _pick(rng, [0.5, 2.0, -1.0])}]) for _ in range(Nid)]
+    ids[0] = {"t": "id"}
+    gid = [gen_fn(rng, xs, False, ["l1", "sql2", "nonneg", "zero", "l21"]) for _ in ids]
+    alpha = _pick(rng, [1.0, 1.0, 1.5, 0.5]) if not edge else _pick(rng, [1.0, 2.0, 0.0])
+    r = {"alg": "admm", "cplx": False, "xshape": xs, "alpha": alpha, "solver": kind, "x0": _maybe(rng, rand_value(rng, xs, False), 0.3)}
+    if kind == "fblock":
+        r.update({"f": dict(loss, A=A), "C": ids, "g": gid, "rho": [rho1] + [_pick(rng, [0.5, 1.0, 2.0]) for _ in ids[1:]]})
+    else:
+        r.update({"f": None, "C": [A] + ids, "g": [loss] + gid, "rho": [rho1] + [_pick(rng, [0.5, 1.0, 2.0]) for _ in ids],
+                  "xweights": [2.0 * om] + [1.0] * len(ids)})
+    if rng.integers(0, 2):
+        r["reuse"] = {"y": rand_value(rng, [n], False), "s": _pick(rng, [0.5, 1.0, 2.0])}
     return r
 
 
@@ -1077,6 +1164,8 @@ def _gen_pgm(rng, cplx, edge, alg="pgm"):
          "L0": max(L0, 1.0 / 64), "x0": rand_value(rng, xs, cplx), "pol": _gen_policy(rng, alg == "apgm")}
     if r["pol"]["kind"] == "base" and r["pol"].get("real", True) and rng.integers(0, 2):
         r["decoy_L0"] = r["L0"] * _pick(rng, [2.0, 0.5, 4.0])
+    elif not (r["pol"]["kind"] == "base" and r["pol"].get("real", True)) and rng.integers(0, 3) == 0:
+        r["reuse"] = {"y": rand_value(rng, tup(f["yshape"]), cplx), "L0": r["L0"] * _pick(rng, [2.0, 0.5])}
     return r
 
 
@@ -1138,6 +1227,8 @@ def describe(recipe):
     xs = recipe["xshape"]
     shape = "block" if is_block(xs) else f"{len(xs)}d"
     parts = [a, "c128" if recipe.get("cplx") else "f64", shape]
+    if recipe.get("reuse") is not None:
+        parts.append("helper-reused")
     if a == "admm":
         parts += ["N%d" % len(recipe["C"]), recipe["solver"], "f=" + ("none" if recipe["f"] is None else "loss"),
                   "ops=" + "+".join(sorted({c["t"] for c in recipe["C"]})), "g=" + "+".join(sorted({g["k"] for g in recipe["g"]})),
